@@ -1,7 +1,8 @@
 """Shared spec vocabulary: class invariants and mathematical spec functions."""
 import z3
 from fractions import Fraction
-from vf.vcg import LoopSpec, Ctx
+from vf.vcg import LoopSpec, Ctx, ElemInv
+from vf.ast import ExtractionError
 from vf.unit import Contract, Use
 from vf.types import *
 from vf import models
@@ -88,3 +89,12 @@ def declare_ruler(cx, obj, steps):
     st = cx.st
     return And(st.len_of(obj + '._data') == steps, cx.f(obj + '._steps') == steps,
                cx.rf(obj + '._delta') > 0)
+
+
+def split_ghost(var, ghost):
+    """case split of a loop's step obligations: ghost index is the element written in this
+    iteration / any other element"""
+    def f(cx, cxb):
+        same = cx.g(ghost) == cxb.v(var)
+        return [('cur', same), ('other', Not(same))]
+    return f
